@@ -32,15 +32,15 @@ var (
 	errE3 = errors.New("E3")
 )
 
-type TV struct{ N int } // value receiver
+type TV struct{ N int }  // value receiver
 func (TV) Error() string { return "TV" }
 
-type TP struct{ N int } // pointer receiver
+type TP struct{ N int }   // pointer receiver
 func (*TP) Error() string { return "TP" }
 
 type WT struct{ Err error } // custom wrapping type
-func (w WT) Error() string { return "WT(" + w.Err.Error() + ")" }
-func (w WT) Unwrap() error { return w.Err }
+func (w WT) Error() string  { return "WT(" + w.Err.Error() + ")" }
+func (w WT) Unwrap() error  { return w.Err }
 
 func buildErr(t term) error {
 	switch t.Op {
